@@ -279,11 +279,15 @@ class LoopSpec:
     variant(S) -> integer term that decreases (while loops)
     """
 
-    def __init__(self, inv, havoc=None, variant=None, unroll=None):
+    def __init__(self, inv, havoc=None, variant=None, unroll=None, prepare=None,
+                 ghost_init=None, ghost_step=None):
         self.inv = inv
         self.havoc = havoc or {}
         self.variant = variant
         self.unroll = unroll
+        self.prepare = prepare          # prepare(S, I): coerce pre-loop state (e.g. [] -> ConcatList)
+        self.ghost_init = ghost_init    # ghost_init(S, I) -> {name: value}
+        self.ghost_step = ghost_step    # ghost_step(S, I): update ghost state at the end of an iteration
 
 
 REGISTRY = {}
@@ -307,10 +311,20 @@ class State:
         ex = object.__getattribute__(self, "_extra")
         if name in ex:
             return ex[name]
+        env = object.__getattribute__(self, "_env")
         try:
-            return object.__getattribute__(self, "_env").lookup(name)
+            return env.lookup(name)
         except KeyError:
-            raise AttributeError(name)
+            try:
+                return env.lookup("__g_" + name)
+            except KeyError:
+                raise AttributeError(name)
+
+    def set_ghost(self, name, value):
+        object.__getattribute__(self, "_env").set("__g_" + name, value)
+
+    def set_local(self, name, value):
+        object.__getattribute__(self, "_env").set(name, value)
 
     def __getitem__(self, name):
         return getattr(self, name)
@@ -467,13 +481,12 @@ class Engine:
             self._check_raise(path, c, args, pr.exc)
             return
         # normal return: postconditions
-        path.cover("returns")
         # a function that must raise under some condition must not return then
         if c.raises_exact:
             for exc_name, condfn in c.raises.items():
                 cond = condfn(**args)
                 path.oblige("raises", f"{exc_name}-missed", spec.Not(cond))
-        ens = c.ensures(result, **args)
+        ens = _call_ensures(c, result, args, interp.top_env)
         for nm, cond in _named(ens):
             path.oblige("post", nm, cond)
 
@@ -493,6 +506,20 @@ class Engine:
         if not matched:
             path.oblige("raises", f"never-{exc.cls}", z3.BoolVal(False),
                         note=f"{exc.cls}{exc.args!r} is not in the contract's raises")
+
+
+def _call_ensures(c, result, args, env):
+    import inspect
+    params = inspect.signature(c.ensures).parameters
+    if "ghost" in params:
+        g = {}
+        if env is not None:
+            for k, v in env.vars.items():
+                if k.startswith("__g_"):
+                    g[k[4:]] = v
+            g["__locals__"] = env.vars
+        return c.ensures(result, ghost=g, **args)
+    return c.ensures(result, **args)
 
 
 def _cargs(d):
@@ -648,6 +675,7 @@ class Interp:
         self.top_fn = None
         self.frames = []
         self.depth = 0
+        self.top_env = None
 
     # ---------------------------------------------------------------- calls
     def call(self, fn, args, kwargs, node=None):
@@ -742,6 +770,8 @@ class Interp:
         self.bind_params(fn, args, kwargs, env)
         frame = Frame(fn, env)
         frame.is_top = top
+        if top:
+            self.top_env = env
         is_gen = _contains_yield(fn.node)
         if is_gen:
             frame.yields = []
@@ -782,8 +812,18 @@ class Interp:
             if self.path.branch(cond if is_z3(cond) else bool(cond)):
                 raise PyRaise(ExcVal(exc_name, (f"raised by {short} (contract)",)))
         res = c.result(v, **a)
-        for nm, cond in _named(c.ensures(res, **a)):
+        ghost = None
+        if isinstance(res, tuple) and len(res) == 2 and isinstance(res[1], dict) and res[1].get("__ghost__"):
+            res, ghost = res
+        import inspect
+        if "ghost" in inspect.signature(c.ensures).parameters:
+            ens = c.ensures(res, ghost=ghost or {}, **a)
+        else:
+            ens = c.ensures(res, **a)
+        for nm, cond in _named(ens):
             self.path.assume(cond)
+        if ghost is not None:
+            self.path.ghost.setdefault("calls", []).append((c.target, a, res, ghost))
         eff = c.effects(v, **a)
         if not c.trusted:
             pass
@@ -1206,6 +1246,13 @@ class Interp:
         mutated = _mutated_names(s.body)
         # 1. invariant holds on entry (0 iterations done)
         S0 = State(env, {"it": z3.IntVal(0), "count": cnt, "item_at": item_at})
+        if lspec.prepare is not None:
+            lspec.prepare(S0, self)
+        ghost_names = []
+        if lspec.ghost_init is not None:
+            for gn, gv in lspec.ghost_init(S0, self).items():
+                env.set("__g_" + gn, gv)
+                ghost_names.append("__g_" + gn)
         for nm, cond in _named(lspec.inv(S0)):
             path.oblige("inv-init", f"loop{ordn}.{nm}", cond, s.lineno)
         # 2. havoc everything the body may change
@@ -1232,6 +1279,11 @@ class Interp:
                 while e is not None and nm not in e.vars:
                     e = e.parent
                 (e or env).vars[nm] = newv
+        for gn in ghost_names:
+            if gn in lspec.havoc:
+                env.set(gn, lspec.havoc[gn](Vocab(path)))
+            else:
+                env.set(gn, self.havoc_value(env.vars[gn], gn))
         Sk = State(env, {"it": k, "count": cnt, "item_at": item_at})
         for nm, cond in _named(lspec.inv(Sk)):
             path.assume(cond)
@@ -1246,6 +1298,8 @@ class Interp:
                 # leaves the loop with the current state; else-clause skipped
                 return
             S1 = State(env, {"it": k + 1, "count": cnt, "item_at": item_at})
+            if lspec.ghost_step is not None:
+                lspec.ghost_step(S1, self)
             for nm, cond in _named(lspec.inv(S1)):
                 path.oblige("inv-keep", f"loop{ordn}.{nm}", cond, s.lineno)
             raise PathEnd()
@@ -1269,8 +1323,12 @@ class Interp:
             return ConcatList(cnt, p.fresh_arr(nm + ".flat", old.flat.kind, dtype=old.flat.dtype))
         if isinstance(old, tuple):
             return tuple(self.havoc_value(x, f"{nm}.{i}") for i, x in enumerate(old))
+        if isinstance(old, dict):
+            return {k: self.havoc_value(x, f"{nm}.{k}") for k, x in old.items()}
         if isinstance(old, (str, z3.SeqRef)):
             return p.fresh_str(nm)
+        if isinstance(old, z3.FuncDeclRef):
+            return z3.Function(p.fresh_name(nm), *([old.domain(i) for i in range(old.arity())] + [old.range()]))
         h = getattr(old, "pyvc_havoc", None)
         if h is not None:
             return h(self, nm)
